@@ -135,10 +135,27 @@ def check(ctx):
     for i in range(60 if ctx.thorough() else 12):
         sizes = [ctx.rng.choice([0, 1, 125, 126, 127, 1000, 65535, 65536, 100000]) for _ in range(ctx.rng.randint(1, 8))]
         sessions.append(["ws %s %s" % (CHAINS[i % len(CHAINS)], ",".join(str(s) for s in sizes))])
+    # sessions that outlive the end-to-end handler timeout (1 s), with the Connection token lists
+    # real clients send: the tunnel must stay up as long as both ends want
+    for variant in ("upgrade", "ka-upgrade", "upgrade-ka", "lower"):
+        sessions.append(["wshold %s 1 1500" % variant])
 
     def orc_ws(ep, outs):
         return [] if outs and outs[0].startswith("ws ok") else ["WebSocket session failed: %s -> %s" % (ep[0], outs[0] if outs else "")]
     bad2 = d2.check(sessions, oracle=orc_ws, label="tunnel")
+    # the pool under real concurrency: double hand-out / leak detection (search; also run under -race by C12)
+    from . import c12
+    import re as _re
+    pool_runs = [{"VERIF_RACE_MS": str(1200 if ctx.thorough() else 400), "VERIF_RACE_SEED": str(ctx.seed * 11 + i)}
+                 for i in range(6 if ctx.thorough() else 2)]
+    for env in pool_runs:
+        rc, out = c12.run_workload(ctx, binary, "TestVerifPoolRace", env)
+        cls = c12.classify(rc, out)
+        if cls:
+            C.violation(ctx, "pool-concurrent-" + cls[0], {"what": "pool under concurrent Get/Put/Close/cleanup/Shutdown: " + cls[0],
+                                                          "test": "TestVerifPoolRace", "env": env, "report": cls[1]})
+            break
+    ctx.cov["pool_concurrency_runs"] = len(pool_runs)
     nontriv = set()
     if bad == 0:
         for ep, outs in zip(episodes, d.last[0]):
